@@ -85,11 +85,14 @@ func (f *DoAllSymbols) Call(s *slip.Scope, args slip.List, depth int) slip.Objec
 	for _, name := range names {
 		ss.Let(sym, slip.Symbol(name))
 		for i := range forms {
-			if rr, ok2 := slip.EvalArg(ss, forms, i, d2).(*slip.ReturnResult); ok2 {
-				if rr.Tag == nil {
-					return rr.Result
+			switch tr := slip.EvalArg(ss, forms, i, d2).(type) {
+			case *slip.ReturnResult:
+				if tr.Tag == nil {
+					return tr.Result
 				}
-				return rr
+				return tr
+			case *GoTo:
+				return tr // a tag of an enclosing tagbody
 			}
 		}
 	}
